@@ -52,9 +52,11 @@ def render_plan(calls, t):
 
 
 def run(ctx):
+    cfg = ctx.s("cfg")
+    if cfg.draw(200 if ctx.tier == "quick" else 40) == 0:
+        return run_fixture(ctx, cfg, ctx.s("ops"))
     feat = C.draw_features(ctx)
     feat["max_params"] = 2
-    cfg = ctx.s("cfg")
     nag = 2 + cfg.draw(3)
     W = C.World(ctx, feat, multi_agent=True, agents=nag)
     ops = ctx.s("ops")
@@ -93,14 +95,47 @@ def run(ctx):
         raise Skip()
     final_seq = cur
     validate = cfg.chance(1, 2)
+    check_conversion(ctx, W, S0, plan, final_seq, agents, validate, ops)
+
+
+def run_fixture(ctx, cfg, ops):
+    from . import fixtures
+    fx = fixtures.load_ma_plan(cfg.draw(len(fixtures.MA_PLANS)))
+    if "unsupported" in fx:
+        ctx.probes["fixture_unsupported"] += 1
+        raise Skip()
+    ctx.profile = "shipped-plan"
+    ctx.probes["fixture_plan"] += 1
+    W = C.FixtureWorld(fx)
+    agents = list(fx["agents"])
+    if cfg.chance(1, 3):
+        agents = ops.shuffle(agents)
+    plan = [(a, list(args)) for a, args in fx["calls"]][: 2 + cfg.draw(40)]
+    S0 = interp.init_state(W.P)
+    cur = S0
+    for a, args in plan:
+        cur, _ = interp.successor(cur, W.action(a), args, W.D, W.objs)
+    check_conversion(ctx, W, S0, plan, cur, agents, cfg.chance(1, 2), ops)
+
+
+def agent_of(c, agents):
+    """the executing agent of a call: the first agent name among its arguments"""
+    for a in c[1]:
+        if a in agents:
+            return a
+    return None
+
+
+def check_conversion(ctx, W, S0, plan, final_seq, agents, validate, ops):
+    fixture = isinstance(W, C.FixtureWorld)
     try:
-        d, p, s0 = C.lib_world(ctx, W, S0)
+        d, p, s0 = C.lib_world(ctx, W, None if fixture else S0)
     except Exception as e:
         raise Violation("C15/generated-input-rejected", "DomainParser/ProblemParser", f"{type(e).__name__}: {e}")
     from pddl_plus_parser.multi_agent import PlanConverter, MultiAgentTrajectoryExporter
     text = render_plan(plan, ops)
     path = C.put(ctx, "plan.solution", text)
-    ctx.log("input", W.dom_text_plain, sorted(S0[0]), sorted(S0[1].items()), text, tuple(agents), validate)
+    ctx.log("input", W.dom_text_plain, sorted(S0[0])[:60], sorted(S0[1].items())[:60], text, tuple(agents), validate)
     conv = PlanConverter(d)
     site = "PlanConverter.convert_plan"
     import pddl_plus_parser.multi_agent.single_agent_plan_converter as conv_mod
@@ -155,11 +190,11 @@ def run(ctx):
         if len(s) != len(agents):
             raise Violation("C15/slot-count", site, f"step {i} has {len(s)} slots for {len(agents)} agents")
         for k, c in enumerate(s):
-            if c is not None and c[1][0] != agents[k]:
+            if c is not None and agent_of(c, agents) != agents[k]:
                 raise Violation("C15/wrong-slot", site, f"step {i} slot {k} ({agents[k]}) holds {C.fmt_call(*c)}")
     for ag in agents:
-        seq = [(c[0], tuple(c[1])) for c in plan if c[1][0] == ag]
-        got = [(c[0], tuple(c[1])) for s in jp for c in s if c is not None and c[1][0] == ag]
+        seq = [(c[0], tuple(c[1])) for c in plan if agent_of(c, agents) == ag]
+        got = [(c[0], tuple(c[1])) for s in jp for c in s if c is not None and agent_of(c, agents) == ag]
         if seq != got:
             raise Violation("C15/agent-order-changed", site, f"agent {ag}: {seq} -> {got}")
     cur = S0
